@@ -1,4 +1,4 @@
-use std::collections::BTreeMap;
+use std::collections::{BTreeMap, BTreeSet};
 use std::fmt;
 
 use nonempty::NonEmpty;
@@ -185,29 +185,38 @@ impl Canonical {
     /// Also returns an error if `heads` is empty or `threshold` cannot be
     /// satisified with the number of heads given.
     pub fn quorum(self, repo: &raw::Repository) -> Result<Oid, QuorumError> {
-        let mut candidates = BTreeMap::<_, usize>::new();
+        let mut voters = BTreeMap::<Oid, BTreeSet<&Did>>::new();
 
         // Build a list of candidate commits and count how many "votes" each of them has.
         // Commits get a point for each direct vote, as well as for being part of the ancestry
         // of a commit given to this function. Only commits given to the function are considered.
-        for (i, head) in self.tips.values().enumerate() {
+        // N.b. votes are counted per delegate: when several delegates share a tip, a delegate
+        // whose tip descends from it must still count only once for that tip.
+        for (i, (did, head)) in self.tips.iter().enumerate() {
             // Add a direct vote for this head.
-            *candidates.entry(*head).or_default() += 1;
+            voters.entry(*head).or_default().insert(did);
 
             // Compare this head to all other heads ahead of it in the list.
-            for other in self.tips.values().skip(i + 1) {
-                // N.b. if heads are equal then skip it, otherwise it will end up as
-                // a double vote.
+            for (other_did, other) in self.tips.iter().skip(i + 1) {
                 if *head == *other {
                     continue;
                 }
                 let base = Oid::from(repo.merge_base(**head, **other)?);
 
-                if base == *other || base == *head {
-                    *candidates.entry(base).or_default() += 1;
+                if base == *other {
+                    // `head` descends from `other`.
+                    voters.entry(base).or_default().insert(did);
+                } else if base == *head {
+                    // `other` descends from `head`.
+                    voters.entry(base).or_default().insert(other_did);
                 }
             }
         }
+        let mut candidates = voters
+            .into_iter()
+            .map(|(oid, voters)| (oid, voters.len()))
+            .collect::<BTreeMap<Oid, usize>>();
+
         // Keep commits which pass the threshold.
         candidates.retain(|_, votes| *votes >= self.threshold);
 
